@@ -623,6 +623,22 @@ impl Router {
                             force_ack = true;
                         }
                         QoS::ExactlyOnce => {
+                            // The publish is kept until its release: a topic alias means what
+                            // it means now, so it is resolved (or established) now
+                            let (mut publish, mut properties) = (publish, properties);
+                            let alias = properties.as_mut().and_then(|p| p.topic_alias.take());
+                            if let Some(alias) = alias {
+                                let connection = self.connections.get_mut(id).unwrap();
+                                if let Err(e) =
+                                    validate_and_set_topic_alias(&mut publish, connection, alias)
+                                {
+                                    error!(reason = ?e, "Bad topic alias");
+                                    self.router_meters.failed_publishes += 1;
+                                    disconnect = true;
+                                    break;
+                                }
+                            }
+
                             let pubrec = PubRec {
                                 pkid,
                                 reason: PubRecReason::Success,
